@@ -80,4 +80,127 @@ theorem atoi_neg_digits (n : Nat) : atoi (45 :: digits n) = -(n : Int) := by
   simp only [h0]
   rw [hd, isInf_digits d ds hdig]; simp [hv]
 
+/-! ### guarded buffer: nothing outside `buf[0 .. max)` changes -/
+
+/-- the guard cells on both sides of the caller's buffer still hold the fill pattern -/
+def Guard (max : Nat) (m : Mem) : Prop :=
+  m.length = max + 2 * pad ∧ ∀ i, (i < pad ∨ pad + max ≤ i) → i < max + 2 * pad → m.getD i 0 = fill
+
+theorem guard_init (max : Nat) : Guard max (Mem.init max) := by
+  refine ⟨by simp [Mem.init], ?_⟩
+  intro i _ hi
+  simp [Mem.init, List.getD_eq_getElem?_getD, hi]
+
+theorem guard_set {max : Nat} {m : Mem} (h : Guard max m) (i x : Nat)
+    (h1 : pad ≤ i) (h2 : i < pad + max) : Guard max (m.set i x) := by
+  refine ⟨by simp [h.1], ?_⟩
+  intro j hj hj2
+  have := h.2 j hj hj2
+  have hne : i ≠ j := by omega
+  simpa [List.getD_eq_getElem?_getD, List.getElem?_set_ne hne] using this
+
+theorem guard_foldl {max : Nat} (f : Nat → Nat) (g : Mem → Nat → Nat) (n : Nat) (m : Mem)
+    (hf : ∀ i < n, pad ≤ f i ∧ f i < pad + max) (h : Guard max m) :
+    Guard max ((List.range n).foldl (fun m i => m.set (f i) (g m i)) m) := by
+  induction n with
+  | zero => simpa using h
+  | succ n ih =>
+    rw [List.range_succ, List.foldl_append]
+    simp only [List.foldl_cons, List.foldl_nil]
+    exact guard_set (ih (fun i hi => hf i (by omega))) _ _ (hf n (by omega)).1 (hf n (by omega)).2
+
+theorem guard_shiftLeft {max : Nat} {m : Mem} (h : Guard max m) (dst n : Nat)
+    (h1 : pad ≤ dst) (h2 : dst + n ≤ pad + max) : Guard max (shiftLeft m dst n) :=
+  guard_foldl (fun i => dst + i) (fun m i => m.getD (dst + i + 1) 0) n m (fun i hi => by omega) h
+
+theorem guard_revLoop {max : Nat} (m : Mem) (ptr p : Nat) (h : Guard max m)
+    (h1 : pad ≤ ptr) (h2 : p ≤ pad + max) : Guard max (revLoop m ptr p) := by
+  fun_induction revLoop m ptr p with
+  | case1 m ptr p hp p' c m1 m2 ih =>
+    apply ih
+    · exact guard_set (guard_set h _ _ (by omega) (by omega)) _ _ (by omega) (by omega)
+    · omega
+    · omega
+  | case2 m ptr p hp => exact h
+
+theorem guard_digitLoop {max ptr : Nat} (v : Nat) (m : Mem) (ret p : Nat) (h : Guard max m)
+    (h1 : pad ≤ ptr) (h2 : ptr ≤ p) (h3 : p ≤ pad + ret) (h4 : p + 1 ≤ pad + max) :
+    Guard max (digitLoop max ptr v m ret p).1 ∧ ptr ≤ (digitLoop max ptr v m ret p).2.2 ∧
+      (digitLoop max ptr v m ret p).2.2 + 1 ≤ pad + max := by
+  induction v using Nat.strongRecOn generalizing m ret p with
+  | _ v ih =>
+    rw [digitLoop]
+    split
+    · exact ⟨h, h2, h4⟩
+    · rename_i hv
+      simp only
+      split
+      · exact ih (v / 10) (by omega) m (ret + 1) p h h2 (by omega) h4
+      · rename_i hc
+        by_cases hr : ret + 1 ≥ max
+        · simp only [hr, if_true]
+          have hp : p ≠ ptr := fun e => hc ⟨hr, e⟩
+          have e : p - 1 + 1 = p := by omega
+          rw [e]
+          refine ih (v / 10) (by omega) _ (ret + 1) p ?_ h2 (by omega) h4
+          exact guard_set (guard_shiftLeft h ptr (p - ptr) h1 (by omega)) _ _ (by omega) (by omega)
+        · simp only [hr, if_false]
+          refine ih (v / 10) (by omega) _ (ret + 1) (p + 1) ?_ (by omega) (by omega) (by omega)
+          exact guard_set h _ _ (by omega) (by omega)
+
+theorem oobWrites_of_guard {max : Nat} {m : Mem} (h : Guard max m) : oobWrites m max = [] := by
+  unfold oobWrites
+  rw [List.filter_eq_nil_iff]
+  intro i hi
+  simp only [List.mem_range] at hi
+  have := h.2 i
+  rw [h.1] at hi
+  simp only [decide_eq_true_eq, not_and, Decidable.not_not, ne_eq, ge_iff_le]
+  intro hc
+  exact this hc hi
+
+theorem guard_itoa (v : Int) (max : Nat) : Guard max (itoa v max).2 := by
+  have g0 := guard_init max
+  unfold itoa
+  simp only
+  split
+  · exact g0
+  · rename_i hmax
+    split
+    · split
+      · exact guard_set g0 _ _ (by omega) (by omega)
+      · exact guard_set (guard_set g0 _ _ (by omega) (by omega)) _ _ (by omega) (by omega)
+    · split
+      · split
+        · exact g0
+        · refine guard_set ?_ _ _ (by omega) (by omega)
+          exact guard_foldl (fun i => pad + i) (fun _ i => minStr.getD i 0) _ _ (fun i hi => by omega) g0
+      · split
+        · exact guard_set g0 _ _ (by omega) (by omega)
+        · rename_i hv0 _ hneg
+          by_cases hn : v < 0
+          · have hm : 2 ≤ max := by
+              by_cases h1 : 1 ≥ max
+              · exact absurd ⟨hn, h1⟩ hneg
+              · omega
+            simp only [hn, if_true]
+            have g1 : Guard max ((Mem.init max).set pad 45) := guard_set g0 _ _ (by omega) (by omega)
+            have := guard_digitLoop (max := max) (ptr := pad + 1) v.natAbs _ 1 (pad + 1) g1
+              (by omega) (by omega) (by omega) (by omega)
+            revert this
+            generalize digitLoop max (pad + 1) v.natAbs _ 1 (pad + 1) = r
+            obtain ⟨m', ret', p'⟩ := r
+            intro this
+            simp only at this ⊢
+            refine guard_set (guard_revLoop _ _ _ this.1 (by omega) (by omega)) _ _ (by omega) (by omega)
+          · simp only [hn, if_false]
+            have := guard_digitLoop (max := max) (ptr := pad) v.natAbs _ 0 pad g0
+              (by omega) (by omega) (by omega) (by omega)
+            revert this
+            generalize digitLoop max pad v.natAbs _ 0 pad = r
+            obtain ⟨m', ret', p'⟩ := r
+            intro this
+            simp only at this ⊢
+            refine guard_set (guard_revLoop _ _ _ this.1 (by omega) (by omega)) _ _ (by omega) (by omega)
+
 end IwModel.Conv
